@@ -340,9 +340,12 @@ class InitEccAuthBlock(AuthBlock):
     def pack(
         self, session_key: bytes, ext_encryptors: Iterable[KeySelectorEncryptor] = ()
     ) -> bytes:
+        fallback_encryptor = None
+        if self.key_selector in EccEncryptor.DEFAULT_PUBLIC_KEYS:
+            fallback_encryptor = EccEncryptor(self.key_selector)
         encryptor = self.select_encryptor(
             ext_encryptors,
-            fallback_encryptor=EccEncryptor(),
+            fallback_encryptor=fallback_encryptor,
             encryptor_filter=lambda e: e.key_selector == self.key_selector,
         )
         return self.key_selector.to_bytes(1, "big") + encryptor.encrypt(session_key)
